@@ -352,26 +352,40 @@ func runC03(c *Ctx) {
 				}
 			}
 			// the typed decoder returns the same
-			var td jwt.Claims
-			switch kind {
-			case "operator":
-				td, err = jwt.DecodeOperatorClaims(tok)
-			case "account":
-				td, err = jwt.DecodeAccountClaims(tok)
-			case "user":
-				td, err = jwt.DecodeUserClaims(tok)
-			case "activation":
-				td, err = jwt.DecodeActivationClaims(tok)
-			case "authorization_request":
-				td, err = jwt.DecodeAuthorizationRequestClaims(tok)
-			case "authorization_response":
-				td, err = jwt.DecodeAuthorizationResponseClaims(tok)
-			default:
-				td, err = jwt.DecodeGeneric(tok)
+			typed := func() (jwt.Claims, error) {
+				switch kind {
+				case "operator":
+					return jwt.DecodeOperatorClaims(tok)
+				case "account":
+					return jwt.DecodeAccountClaims(tok)
+				case "user":
+					return jwt.DecodeUserClaims(tok)
+				case "activation":
+					return jwt.DecodeActivationClaims(tok)
+				case "authorization_request":
+					return jwt.DecodeAuthorizationRequestClaims(tok)
+				case "authorization_response":
+					return jwt.DecodeAuthorizationResponseClaims(tok)
+				}
+				return jwt.DecodeGeneric(tok)
 			}
+			td, err := typed()
 			if err != nil || canonString(elem(td)) != got {
 				inp["error"] = fmt.Sprint(err)
 				c.violation("C03: the decoder for the kind disagrees with the general decoder", inp)
+				continue
+			}
+			// ... and again, after the caller has written all over what it was handed the first time: the content comes
+			// from the token, not from an object handed out before
+			scribble(td)
+			if td2, err2 := typed(); err2 != nil || canonString(elem(td2)) != got {
+				inp["error"] = fmt.Sprint(err2)
+				c.violation("C03: decoding the same token again, after the first result was edited, does not give the encoded content", inp)
+				continue
+			}
+			scribble(td)
+			if d2, err2 := jwt.Decode(tok); err2 != nil || canonString(elem(d2)) != got {
+				c.violation("C03: decoding the same token again, after a typed decoder's result was edited, does not give the encoded content", inp)
 				continue
 			}
 			dterm := ""
